@@ -49,6 +49,19 @@ impl fmt::Debug for Prop {
     }
 }
 
+/// Two property lists say the same thing: same properties with the same multiplicities (MQTT attaches
+/// no meaning to the order of different properties) and the User Properties in the same relative order
+/// (the one order MQTT requires to be preserved).
+pub fn props_equiv(a: &[Prop], b: &[Prop]) -> bool {
+    let mut x = a.to_vec();
+    let mut y = b.to_vec();
+    x.sort();
+    y.sort();
+    let ua: Vec<&Prop> = a.iter().filter(|p| p.id == 0x26).collect();
+    let ub: Vec<&Prop> = b.iter().filter(|p| p.id == 0x26).collect();
+    x == y && ua == ub
+}
+
 pub fn hex(b: &[u8]) -> String {
     let mut s = String::with_capacity(b.len() * 2);
     for x in b {
